@@ -40,6 +40,8 @@ struct Sim {
     win_len: usize,
     win_first: u8,
     win_last: u8,
+    spi_mode: bool,
+    dummy: u8,
     // fault injection and journal of the current call
     idx: usize,
     fails: Vec<usize>,
@@ -61,6 +63,8 @@ impl Sim {
             win_len: 0,
             win_first: 0,
             win_last: 0,
+            spi_mode: false,
+            dummy: 0,
             idx: 0,
             fails: vec![],
             journal: vec![],
@@ -119,6 +123,8 @@ impl Sim {
             let a0 = (self.win_first & 0x7F) as usize;
             let out = if self.win_len == 1 {
                 0
+            } else if !self.spi_mode {
+                self.dummy
             } else if a0 == 0x14 {
                 *self.fifo.get(self.win_len - 2).unwrap_or(&0)
             } else {
@@ -248,6 +254,7 @@ impl OutputPin for SimPin {
         s.attempt("H".to_string()).map_err(PinFault)?;
         s.cs_high = true;
         s.win_len = 0;
+        s.spi_mode = true;
         Ok(())
     }
 }
@@ -866,6 +873,7 @@ fn run_case(line: &str) -> String {
     let mut low = vec![0x90u8];
     let (mut pos, mut neg, mut fifo) = (vec![], vec![], vec![]);
     let mut quiet = false;
+    let mut dummy = 0u8;
     let mut ctor_faults = vec![];
     for tok in &head[2..] {
         if *tok == "q" {
@@ -880,6 +888,8 @@ fn run_case(line: &str) -> String {
             neg = parse_hex(v);
         } else if let Some(v) = tok.strip_prefix("fifo=") {
             fifo = parse_hex(v);
+        } else if let Some(v) = tok.strip_prefix("dummy=") {
+            dummy = u8::from_str_radix(v, 16).expect("dummy");
         } else if tok.starts_with("dev=") || tok.starts_with("fspec=") || tok.starts_with("ftail=") {
             // expected I2C address: used by the model only; the real address is journalled
         } else {
@@ -888,6 +898,7 @@ fn run_case(line: &str) -> String {
     }
     let sim: Shared = Rc::new(RefCell::new(Sim::power_on(&low, pos, neg, fifo)));
     sim.borrow_mut().fails = ctor_faults;
+    sim.borrow_mut().dummy = dummy;
     let mut out: Vec<String> = vec![id.to_string()];
     let ops = &secs[1..];
     match ctor {
